@@ -125,6 +125,10 @@ def run(plan):
                 exp["freeze_protection"] = None
             elif with_msgid and len(body) < 22:
                 exp.pop("freeze_protection")
+            for new, old in (("eco", "eco_mode"), ("turbo", "turbo_mode"), ("sleep", "sleep_mode"),
+                             ("freeze_protection", "freeze_protection_mode")):
+                if new in exp:
+                    exp[old] = exp[new]          # the older public names read the same value, every time
             for k, v in exp.items():
                 got = getattr(ac, k)
                 if v is None:
